@@ -9,48 +9,70 @@
 (*   sanity mutation ResubmitStale: a failed bulk_write in the middle of a part is swallowed and the loop     *)
 (*              goes on with the count of the previous round (seeded change C15-w4-c15-m2)                    *)
 (*   sanity mutation LockPerCall: the lock is taken per bulk_write, not per message (seeded C15-w4-c15-m3)    *)
+(*   environment DeferRef: the transport accepts everything, keeps a REFERENCE to the object it was given and *)
+(*              transmits it at its next call (asyncio's socket transport on Python >= 3.12 keeps a view of   *)
+(*              the caller's buffer when the socket does not take everything at once): what goes out is what  *)
+(*              the object holds THEN.  As built every header is a fresh immutable object, so nothing changes *)
+(*   sanity mutation ReuseHeader: headers are packed into one buffer owned by the I/O manager and that buffer *)
+(*              is handed to bulk_write (seeded C15-w7-c15-m2): harmless on a transport that copies at once,  *)
+(*              a duplicated header on one that transmits later                                               *)
 EXTENDS Naturals, Sequences, FiniteSets, TLC
 CONSTANTS HdrLen, PayLens, MaxCap, IgnoreShortWrite,
-          Writers, MaxFails, ResubmitStale, LockPerCall
-VARIABLES pay, part, off, peer, phase, lock, last, fails
-vars == <<pay, part, off, peer, phase, lock, last, fails>>
+          Writers, MaxFails, ResubmitStale, LockPerCall,
+          DeferRef, ReuseHeader
+VARIABLES pay, part, off, peer, phase, lock, last, fails,
+          pending,    \* DeferRef: what the transport has queued and not yet transmitted: <<>> or <<[w, lo, hi, shared]>>
+          hdrbuf      \* ReuseHeader: whose header the shared buffer holds at the moment
+vars == <<pay, part, off, peer, phase, lock, last, fails, pending, hdrbuf>>
+\* the bytes a queued object yields when it is finally transmitted: a shared header buffer is read as it is by then
+Content(q) == [i \in 1..(q.hi - q.lo + 1) |-> <<IF q.shared THEN hdrbuf ELSE q.w, q.lo + i - 1>>]
+Flushed == IF pending = <<>> THEN peer ELSE peer \o Content(pending[1])
 \* bytes of writer w's message are named <<w, 1..HdrLen>> (header) and <<w, HdrLen+1..>> (payload)
 Msg(w) == [i \in 1..(HdrLen + pay[w]) |-> <<w, i>>]
 PartRange(w) == IF part[w] = "hdr" THEN <<1, HdrLen>> ELSE <<HdrLen + 1, HdrLen + pay[w]>>
 Init == /\ pay \in [Writers -> PayLens] /\ part = [w \in Writers |-> "hdr"] /\ off = [w \in Writers |-> 0] /\ peer = <<>>
         /\ phase = [w \in Writers |-> "idle"] /\ lock = "free" /\ last = [w \in Writers |-> 0] /\ fails = 0
+        /\ pending = <<>> /\ hdrbuf = "none"
 Acquire(w) == /\ phase[w] \in {"idle", "relock"} /\ lock = "free" /\ lock' = w /\ phase' = [phase EXCEPT ![w] = "send"]
-              /\ UNCHANGED <<pay, part, off, peer, last, fails>>
+              \* the header is packed when the send starts (under the lock)
+              /\ hdrbuf' = (IF ReuseHeader /\ phase[w] = "idle" THEN w ELSE hdrbuf)
+              /\ UNCHANGED <<pay, part, off, peer, last, fails, pending>>
 \* after a part: the next part, or done (the lock is released)
 NextPart(w) == IF part[w] = "hdr" /\ pay[w] > 0
                THEN /\ part' = [part EXCEPT ![w] = "pay"] /\ off' = [off EXCEPT ![w] = 0]
                     /\ IF LockPerCall THEN phase' = [phase EXCEPT ![w] = "relock"] /\ lock' = "free" ELSE UNCHANGED <<phase, lock>>
                ELSE /\ phase' = [phase EXCEPT ![w] = "done"] /\ lock' = "free" /\ UNCHANGED <<part, off>>
-Write(w) == /\ phase[w] = "send" /\ lock = w
+Write(w) == /\ phase[w] = "send" /\ lock = w /\ UNCHANGED hdrbuf
             /\ LET lo == PartRange(w)[1] + off[w] hi == PartRange(w)[2] n == hi - lo + 1 IN
-               \E c \in 1..MaxCap :
+               \E c \in (IF DeferRef THEN {MaxCap + HdrLen + 8} ELSE 1..MaxCap) :          \* a deferring transport takes everything
                  LET acc == IF c < n THEN c ELSE n IN
-                 /\ peer' = peer \o [i \in 1..acc |-> <<w, lo + i - 1>>]
+                 /\ IF DeferRef
+                    THEN /\ peer' = Flushed                 \* what was queued goes out now, as it is now
+                         /\ pending' = <<[w |-> w, lo |-> lo, hi |-> lo + acc - 1, shared |-> (ReuseHeader /\ part[w] = "hdr")]>>
+                    ELSE /\ peer' = peer \o [i \in 1..acc |-> <<w, lo + i - 1>>] /\ UNCHANGED pending
                  /\ last' = [last EXCEPT ![w] = acc]
                  /\ IF acc = n \/ IgnoreShortWrite THEN NextPart(w)
                     ELSE /\ off' = [off EXCEPT ![w] = off[w] + acc] /\ UNCHANGED part
                          /\ IF LockPerCall THEN phase' = [phase EXCEPT ![w] = "relock"] /\ lock' = "free" ELSE UNCHANGED <<phase, lock>>
             /\ UNCHANGED <<pay, fails>>
 \* the transport raises (a timeout: nothing was sent)
-WriteFails(w) == /\ phase[w] = "send" /\ lock = w /\ fails < MaxFails /\ fails' = fails + 1
+WriteFails(w) == /\ phase[w] = "send" /\ lock = w /\ fails < MaxFails /\ fails' = fails + 1 /\ UNCHANGED <<pending, hdrbuf>>
                  /\ IF ResubmitStale /\ off[w] > 0
                     THEN LET n == PartRange(w)[2] - (PartRange(w)[1] + off[w]) + 1 IN         \* swallowed; the stale count is applied again
                          IF last[w] >= n THEN NextPart(w) /\ UNCHANGED <<peer, last>>
                          ELSE /\ off' = [off EXCEPT ![w] = off[w] + last[w]] /\ UNCHANGED <<part, phase, lock, peer, last>>
                     ELSE /\ phase' = [phase EXCEPT ![w] = "raised"] /\ lock' = "free" /\ UNCHANGED <<part, off, peer, last>>
                  /\ UNCHANGED pay
-Finished == (\A w \in Writers : phase[w] \in {"done", "raised"}) /\ UNCHANGED vars
-Next == (\E w \in Writers : Acquire(w) \/ Write(w) \/ WriteFails(w)) \/ Finished
+\* the transport's next call (a read, close): the queue is transmitted
+Drain == /\ pending # <<>> /\ lock = "free" /\ peer' = Flushed /\ pending' = <<>>
+         /\ UNCHANGED <<pay, part, off, phase, lock, last, fails, hdrbuf>>
+Finished == (\A w \in Writers : phase[w] \in {"done", "raised"}) /\ pending = <<>> /\ UNCHANGED vars
+Next == (\E w \in Writers : Acquire(w) \/ Write(w) \/ WriteFails(w)) \/ Drain \/ Finished
 Spec == Init /\ [][Next]_vars
 \* what the peer got from writer w
 From(w) == SelectSeq(peer, LAMBDA b : b[1] = w)
 \* the peer receives every byte of every message whose send returned, in order and without gaps - or the send raised
-PeerGetsAll == \A w \in Writers : phase[w] = "done" => From(w) = Msg(w)
+PeerGetsAll == \A w \in Writers : (phase[w] = "done" /\ pending = <<>>) => From(w) = Msg(w)
 InOrderNoGap == \A w \in Writers : \A i \in 1..Len(From(w)) : From(w)[i] = <<w, i>>
 \* the pieces of one message stay together on the wire: between two bytes of a message there is no byte of another writer
 Contiguous == \A i, j \in 1..Len(peer) : (i < j /\ peer[i][1] = peer[j][1]) => \A k \in i..j : peer[k][1] = peer[i][1]
